@@ -19,9 +19,10 @@ def packK (c : FCache) (t : FTag) : FK → FCache × Bool
   | .mdata => ({ c with mdata := some t }, false)
   | .vseq => ({ c with vseq := some t }, false)
   | .aseq => ({ c with aseq := some t }, false)
-  | .key => if c.cacheGop then ({ c with gop := [t] }, true) else (c, true)
-  | .other => if c.cacheGop then (if c.gop.length > 0 then ({ c with gop := c.gop ++ [t] }, false) else (c, false))
-              else (c, false)
+  | .key => if c.cacheGop then ({ c with last := t.ts, gop := [t] }, true) else ({ c with last := t.ts }, true)
+  | .other => if c.cacheGop then (if c.gop.length > 0 then ({ c with last := t.ts, gop := c.gop ++ [t] }, false)
+                                  else ({ c with last := t.ts }, false))
+              else ({ c with last := t.ts }, false)
 
 theorem pack_kind (c : FCache) (t : FTag) : c.pack t = packK c t (tagKind t) := by
   unfold FCache.pack tagKind
@@ -39,9 +40,20 @@ theorem pack_kind (c : FCache) (t : FTag) : c.pack t = packK c t (tagKind t) := 
         · have h4' : isKeyFrame t = false := by simpa using h4
           simp [h4', packK]
 
+theorem cacheFrom_snoc (c0 : FCache) (ts : List FTag) (t : FTag) :
+    cacheFrom c0 (ts ++ [t]) = ((cacheFrom c0 ts).pack t).1 := by
+  simp [cacheFrom, List.foldl_append]
+
 theorem cacheAfter_snoc (gop : Bool) (ts : List FTag) (t : FTag) :
-    cacheAfter gop (ts ++ [t]) = ((cacheAfter gop ts).pack t).1 := by
-  simp [cacheAfter, List.foldl_append]
+    cacheAfter gop (ts ++ [t]) = ((cacheAfter gop ts).pack t).1 := cacheFrom_snoc _ ts t
+
+/-- the cache with GOP caching `gop` and header stamping `sn` after the tags `ts` -/
+def cacheG (gop sn : Bool) (ts : List FTag) : FCache := cacheFrom { cacheGop := gop, stampNow := sn } ts
+
+theorem cacheG_snoc (gop sn : Bool) (ts : List FTag) (t : FTag) :
+    cacheG gop sn (ts ++ [t]) = ((cacheG gop sn ts).pack t).1 := cacheFrom_snoc _ ts t
+
+theorem cacheAfter_eq (gop : Bool) (ts : List FTag) : cacheAfter gop ts = cacheG gop true ts := rfl
 
 structure FSpec (gop : Bool) (ts : List FTag) (c : FCache) : Prop where
   cfg : c.cacheGop = gop
@@ -52,11 +64,11 @@ structure FSpec (gop : Bool) (ts : List FTag) (c : FCache) : Prop where
       suffixFromLast (fun t => tagKind t = .key) (ts.filter (fun t => tagKind t = .key ∨ tagKind t = .other))
     else []
 
-theorem fspec_cacheAfter (gop : Bool) (ts : List FTag) : FSpec gop ts (cacheAfter gop ts) := by
+theorem fspec_cacheG (gop sn : Bool) (ts : List FTag) : FSpec gop ts (cacheG gop sn ts) := by
   induction ts using rev_ind with
-  | h0 => exact ⟨rfl, by simp [cacheAfter], by simp [cacheAfter], by simp [cacheAfter], by simp [cacheAfter, suffixFromLast]⟩
+  | h0 => exact ⟨rfl, by simp [cacheG, cacheFrom], by simp [cacheG, cacheFrom], by simp [cacheG, cacheFrom], by simp [cacheG, cacheFrom, suffixFromLast]⟩
   | hs ts t ih =>
-    rw [cacheAfter_snoc, pack_kind]
+    rw [cacheG_snoc, pack_kind]
     obtain ⟨hg, hm, hv, ha, hgop⟩ := ih
     cases hk : tagKind t with
     | mdata =>
@@ -86,7 +98,7 @@ theorem fspec_cacheAfter (gop : Bool) (ts : List FTag) : FSpec gop ts (cacheAfte
       cases gop with
       | false =>
         simp only [Bool.false_eq_true, if_false]
-        refine ⟨hg, ?_, ?_, ?_, ?_⟩
+        refine ⟨by first | exact hg | rfl, ?_, ?_, ?_, ?_⟩
         · rw [getLast?_filter_snoc]; simp [hk, hm]
         · rw [getLast?_filter_snoc]; simp [hk, hv]
         · rw [getLast?_filter_snoc]; simp [hk, ha]
@@ -107,7 +119,7 @@ theorem fspec_cacheAfter (gop : Bool) (ts : List FTag) : FSpec gop ts (cacheAfte
       cases gop with
       | false =>
         simp only [Bool.false_eq_true, if_false]
-        refine ⟨hg, ?_, ?_, ?_, ?_⟩
+        refine ⟨by first | exact hg | rfl, ?_, ?_, ?_, ?_⟩
         · rw [getLast?_filter_snoc]; simp [hk, hm]
         · rw [getLast?_filter_snoc]; simp [hk, hv]
         · rw [getLast?_filter_snoc]; simp [hk, ha]
@@ -116,20 +128,20 @@ theorem fspec_cacheAfter (gop : Bool) (ts : List FTag) : FSpec gop ts (cacheAfte
         simp only [if_true] at hgop ⊢
         have hsn : suffixFromLast (fun t => decide (tagKind t = FK.key))
             (List.filter (fun t => decide (tagKind t = FK.key ∨ tagKind t = FK.other)) (ts ++ [t]))
-            = (match (cacheAfter true ts).gop with | [] => [] | r :: rs => (r :: rs) ++ [t]) := by
+            = (match (cacheG true sn ts).gop with | [] => [] | r :: rs => (r :: rs) ++ [t]) := by
           rw [List.filter_append]
           simp only [hk, List.filter_cons, List.filter_nil, decide_true, Bool.or_true, if_true, or_true]
           rw [suffixFromLast_snoc, ← hgop]; simp only [hk]
-          cases (cacheAfter true ts).gop <;> simp
-        cases hgl : (cacheAfter true ts).gop with
+          cases (cacheG true sn ts).gop <;> simp
+        cases hgl : (cacheG true sn ts).gop with
         | nil =>
           rw [hgl] at hsn
           simp only [hgl, List.length_nil, gt_iff_lt, Nat.lt_irrefl, if_false]
-          refine ⟨hg, ?_, ?_, ?_, ?_⟩
+          refine ⟨by first | exact hg | rfl, ?_, ?_, ?_, ?_⟩
           · rw [getLast?_filter_snoc]; simp [hk, hm]
           · rw [getLast?_filter_snoc]; simp [hk, hv]
           · rw [getLast?_filter_snoc]; simp [hk, ha]
-          · simp only [if_true]; rw [hsn]; exact hgl
+          · simp only [if_true]; rw [hsn]
         | cons r rs =>
           rw [hgl] at hsn
           simp only [hgl, List.length_cons, gt_iff_lt, Nat.zero_lt_succ, if_true]
@@ -138,5 +150,34 @@ theorem fspec_cacheAfter (gop : Bool) (ts : List FTag) : FSpec gop ts (cacheAfte
           · rw [getLast?_filter_snoc]; simp [hk, hv]
           · rw [getLast?_filter_snoc]; simp [hk, ha]
           · simp only [if_true]; rw [hsn]
+
+theorem fspec_cacheAfter (gop : Bool) (ts : List FTag) : FSpec gop ts (cacheAfter gop ts) :=
+  fspec_cacheG gop true ts
+
+/-- is the tag a media tag for the cache (neither metadata nor a sequence header)? -/
+def isMedia (t : FTag) : Bool := decide (tagKind t = .key ∨ tagKind t = .other)
+
+/-- `stampNow` never changes, and `lastTimestamp` is the timestamp of the latest media tag
+    (0 before the first) -/
+theorem last_cacheG (gop sn : Bool) (ts : List FTag) :
+    (cacheG gop sn ts).stampNow = sn ∧
+    (cacheG gop sn ts).last = (match (ts.filter isMedia).getLast? with | some t => t.ts | none => 0) := by
+  induction ts using rev_ind with
+  | h0 => simp [cacheG, cacheFrom]
+  | hs ts t ih =>
+    obtain ⟨i1, i2⟩ := ih
+    rw [cacheG_snoc, pack_kind, getLast?_filter_snoc]
+    cases hk : tagKind t with
+    | mdata => exact ⟨i1, by simpa [packK, isMedia, hk] using i2⟩
+    | vseq => exact ⟨i1, by simpa [packK, isMedia, hk] using i2⟩
+    | aseq => exact ⟨i1, by simpa [packK, isMedia, hk] using i2⟩
+    | key =>
+      simp only [packK, isMedia, hk]
+      split <;> exact ⟨i1, by simp⟩
+    | other =>
+      simp only [packK, isMedia, hk]
+      split
+      · split <;> exact ⟨i1, by simp⟩
+      · exact ⟨i1, by simp⟩
 
 end IpcHub.FlvCacheM
